@@ -160,6 +160,11 @@ def generate(prop, g, tier):
         cfg["knobs"]["downsample"] = g.pick([2, 3])
     elif prop == "C07" and g.coin(0.1):
         cfg["knobs"]["queue_size"] = g.pick([1, 3])
+    if prop == "C07" and g.coin(0.4):
+        # some requests fail (on-error=continue): their records say so, the records of the other requests do not
+        cands = [t for _, _, t in leaf_tasks(cfg["schedule"]) if t["op"] in ("sim-op", "raw-request") and "sim" in t]
+        if cands:
+            cfg["req_errors"] = {t["name"]: {"seqs": sorted(g.sample(range(6), g.pick([1, 1, 2, 3]))), "status": g.pick([400, 404, 500])} for t in g.sample(cands, min(len(cands), g.pick([1, 1, 2])))}
     if prop == "C11":
         gen_filter_bait(g, cfg)
         gen_filters(g, cfg)
@@ -219,12 +224,12 @@ def gen_anchor(g, f):
 
 
 def gen_fault(g, cfg):
-    kinds = ["request-abort", "conn-fatal", "params-raise", "runner-raise", "store-raise", "rc-store-raise", "prep-fail", "worker-kill", "interrupt"]
+    kinds = ["request-abort", "soft-fail-abort", "conn-fatal", "params-raise", "runner-raise", "store-raise", "rc-store-raise", "prep-fail", "worker-kill", "interrupt"]
     kind = g.pick(kinds)
     tasks = [t for _, _, t in leaf_tasks(cfg["schedule"]) if t["op"] in ("sim-op", "raw-request") and "sim" in t]
     f = {"kind": kind}
-    if kind in ("request-abort", "conn-fatal", "params-raise", "runner-raise"):
-        if kind == "runner-raise":
+    if kind in ("request-abort", "soft-fail-abort", "conn-fatal", "params-raise", "runner-raise"):
+        if kind in ("runner-raise", "soft-fail-abort"):
             tasks = [t for t in tasks if t["op"] == "sim-op"]
         if not tasks:
             f = {"kind": "interrupt", "at": g.pick([0.5, 2.0, 5.0])}
@@ -235,6 +240,9 @@ def gen_fault(g, cfg):
             if kind == "request-abort":
                 cfg["on_error"] = "abort"
                 f["status"] = g.pick([400, 404, 500])
+            if kind == "soft-fail-abort":
+                # the runner does not raise: it reports the failure in its return value (like a bulk response with errors)
+                cfg["on_error"] = "abort"
             if kind == "runner-raise":
                 f["how"] = g.pick(["runtime", "key"])
     elif kind == "store-raise":
@@ -401,6 +409,11 @@ class RaceHarness(Harness):
                     if kind == "runner-raise":
                         c["fault"]["how"] = "runtime"
                     yield c
+                    if kind == "runner-raise":
+                        c = json.loads(json.dumps(c))
+                        c["fault"] = {"kind": "soft-fail-abort", "task": c["fault"]["task"], "seq": c["fault"]["seq"]}
+                        c["on_error"] = "abort"
+                        yield c
         for at in (0, 3, 12, 40, 90):
             c = json.loads(json.dumps(base))
             c["fault"] = {"kind": "store-raise", "at_add": at}
@@ -435,6 +448,13 @@ class RaceHarness(Harness):
             c = json.loads(json.dumps(base))
             c["fault"] = {"kind": "rc-store-raise", "at_call": at}
             yield c
+        # the narrowest window: the cancellation is handled by race control, the completion message is already on its way and arrives
+        # before the exit request.  Whether a placement hits it depends on three message delays: many placements, several seeds each
+        for rep in range(4):
+            for delta in (0.0, 1e-4, 3e-4, 1e-3, 2e-3, 5e-3):
+                c = json.loads(json.dumps(base))
+                c["fault"] = {"kind": "interrupt", "at": delta, "on": {"msg": "BenchmarkComplete", "nth": 0}, "rep": rep}
+                yield c
 
     def simplify(self, prop, cfg):
         def cp():
@@ -542,13 +562,18 @@ class RaceHarness(Harness):
         state = {"adds": 0, "store_raised": False, "kill_done": None, "kill_relevant": None}
         # apply plan-level faults to the generated schedule (what the track plugin will do)
         run_cfg = json.loads(json.dumps(cfg))
-        if fault and fault["kind"] in ("params-raise", "runner-raise"):
+        if fault and fault["kind"] in ("params-raise", "runner-raise", "soft-fail-abort"):
             for _, _, t in leaf_tasks(run_cfg["schedule"]):
                 if t["name"] == fault["task"]:
                     if fault["kind"] == "params-raise":
                         t["sim"]["params_raise_at"] = fault["seq"]
+                    elif fault["kind"] == "soft-fail-abort":
+                        t["sim"]["soft_fail"] = {str(fault["seq"]): 1}
                     else:
                         t["sim"]["runner_raise"] = {str(fault["seq"]): fault.get("how", "runtime")}
+
+        req_errors = cfg.get("req_errors") or {}
+        tasks_by_name = {t["name"]: t for _, _, t in leaf_tasks(run_cfg["schedule"])}
 
         def policy_factory(clock, ch_):
             s = ch_.stream("service-time")
@@ -561,6 +586,16 @@ class RaceHarness(Harness):
                     d = s.uniform(svc["lo"], svc["hi"])
                 else:
                     d = svc["base"] * (svc["factor"] if s.coin(svc["p"]) else 1)
+                if req_errors:
+                    parts = w.path.strip("/").split("/")
+                    re_ = req_errors.get(parts[1]) if parts[0] == "_sim" and len(parts) >= 4 else None
+                    if re_ and int(parts[3]) in re_["seqs"]:
+                        t_ = tasks_by_name[parts[1]]
+                        nws = (t_["sim"].get("nwire") or [1]) if t_["op"] == "sim-op" else [1]
+                        # (the last wire request of the logical request fails, so that the number of wire requests stays as planned)
+                        if t_["op"] == "raw-request" or int(parts[4]) == nws[int(parts[3]) % len(nws)] - 1:
+                            fired["request_error_continue"] = fired.get("request_error_continue", 0) + 1
+                            return Outcome(delay=d, kind="status", status=re_["status"])
                 if fault and fault["kind"] in ("request-abort", "conn-fatal"):
                     parts = w.path.strip("/").split("/")
                     if parts[0] == "_sim" and parts[1] == fault["task"] and int(parts[3]) == fault["seq"]:
@@ -577,6 +612,7 @@ class RaceHarness(Harness):
 
         SimParamSource.raised = []
         SimRunner.raised = []
+        SimRunner.soft_failed = []
         sim = RaceSim(ch, run_cfg, self.process_home())
         rc_docs = []
         rc_events = []  # (vtime, msg class) delivered to race control
@@ -744,6 +780,8 @@ class RaceHarness(Harness):
                 fired["parameter_source_raises"] = len(SimParamSource.raised)
             if SimRunner.raised:
                 fired["runner_raises"] = len(SimRunner.raised)
+            if SimRunner.soft_failed and cfg.get("on_error") == "abort":
+                fired["runner_reports_failure_abort"] = len(SimRunner.soft_failed)
 
             include, exclude = cfg.get("include"), cfg.get("exclude")
             expected_schedule = reference_filter(cfg["schedule"], include, exclude)
@@ -1030,6 +1068,7 @@ class RaceHarness(Harness):
         if out.hang or out.exception is not None:
             return
         knobs = cfg["knobs"]
+        ops_of_task = {t["name"]: t.get("opname", f"op-{t['name']}") for _, _, t in leaf_tasks(schedule)}
         expected = info["expected_records"]  # Counter of (task, client_id) -> logical requests
         got = {}
         names = {}
@@ -1066,6 +1105,20 @@ class RaceHarness(Harness):
                 if n > e:
                     bad("records", "duplicated", f"task {key[0]} client {key[1]}: {e} requests were executed but race control holds {n} {name} records")
                     return
+        # every record describes its own request: failed requests are marked as such (with the status), the others are not
+        if cfg.get("req_errors"):
+            for key in sorted(expected, key=str):
+                if key[0] not in cfg["req_errors"]:
+                    continue
+                fails = info["failed_requests"].get(key, {})
+                for name in ("latency", "service_time", "processing_time"):
+                    recs = [d for d in rc_docs if d["name"] == name and d.get("task") == key[0] and d["meta"].get("client_id") == key[1] and d.get("operation") == ops_of_task.get(key[0])]
+                    n_unsuccessful = sum(1 for d in recs if d["meta"].get("success") is False)
+                    n_status = sorted(d["meta"]["http-status"] for d in recs if "http-status" in d["meta"])
+                    n_errtype = sum(1 for d in recs if "error-type" in d["meta"])
+                    if n_unsuccessful != len(fails) or n_status != sorted(fails.values()) or n_errtype != len(fails):
+                        bad("records", "meta-data", f"task {key[0]} client {key[1]}: {len(fails)} of {expected[key]} requests failed (status {sorted(set(fails.values()))}), but of the {len(recs)} {name} records {n_unsuccessful} say success=false, {len(n_status)} carry an http-status and {n_errtype} an error-type")
+                        return
         # sample types of iteration-based tasks
         for (task, client, stype), n in info["expected_types"].items():
             have = sum(1 for d in rc_docs if d["name"] == "service_time" and d.get("task") == task and d["meta"].get("client_id") == client and d["sample-type"] == stype)
@@ -1198,6 +1251,7 @@ def analyse(cfg, schedule, out, rc_events, rc_docs):
     composite = {}
     admin_by_client = {}
     logical = {}  # (task, client_id) -> set of logical request keys
+    failed = {}  # (task, client_id) -> {logical request key: http status}
     first_send = {}
     types = {}
     unknown = 0
@@ -1249,6 +1303,8 @@ def analyse(cfg, schedule, out, rc_events, rc_docs):
             spans.setdefault(-1, {"first_send": w.t_send, "last_recv": w.t_recv or w.t_send, "first_send_wire": w, "last_recv_wire": w})
             continue
         logical.setdefault((task, w.client_id), set()).add(key)
+        if w.status is not None and w.status >= 400 and key[0] == "sim":
+            failed.setdefault((task, w.client_id), {})[key] = w.status
         fk = (task, w.client_id, key)
         if fk not in first_send or w.t_send < first_send[fk]:
             first_send[fk] = w.t_send
@@ -1327,6 +1383,7 @@ def analyse(cfg, schedule, out, rc_events, rc_docs):
         "first_send_of_request": first_send,
         "element_of": element_of,
         "expected_types": expected_types,
+        "failed_requests": failed,
         "logical_requests": sum(expected_records.values()),
         "probes": probes,
         "nwire": nwire,
